@@ -6,8 +6,9 @@ work on /verif can go on meanwhile and /verif/evidence is not overwritten by run
 merged into <dir>/meta.json ("evaluation") and seeded/RESULTS.md is regenerated.  usage: seedeval.py <srcdir> [ids...]"""
 import json, os, subprocess, sys, shutil, time
 V = os.path.dirname(os.path.dirname(os.path.abspath(__file__)))
-WT = '/tmp/wt-seed'
-SNAP = '/tmp/verif-snap'
+SFX = os.environ.get('SEEDEVAL_SUFFIX', '')     # a second instance can run beside the first with its own worktree and snapshot
+WT = '/tmp/wt-seed' + SFX
+SNAP = '/tmp/verif-snap' + SFX
 ENV = dict(os.environ, GOFLAGS='-mod=mod', GOPROXY='off')
 
 def sh(cmd, cwd=None, env=None, timeout=1800):
@@ -60,7 +61,7 @@ def main():
                               'first_pass': first, 'first_violation': (res['check_tail'] or [''])[0]}
         json.dump(meta, open(os.path.join(sd, 'meta.json'), 'w'), indent=1)
     sh('git reset -q --hard && git clean -fdq', cwd=WT)
-    json.dump(results, open('/tmp/seedeval.json', 'w'), indent=1)
+    json.dump(results, open('/tmp/seedeval%s.json' % SFX, 'w'), indent=1)
     sh('rm -rf %s' % SNAP)
     results_md(src)
 
